@@ -179,6 +179,8 @@ impl Scenario for C11Threads {
             // and they are not definitions. Comment (in)sensitivity is C13 (not decided here).
             cfg.comments = false;
             cfg.intra_shared_enumerals = true;
+            cfg.classes = true;
+            cfg.real_components = true;
             if w.chance(1, 3) {
                 // import-heavy sets: many values governed by named types of other modules
                 cfg.value_import_bias = true;
